@@ -1,42 +1,11 @@
 (** C02: cycle-level monitor (Run/Cycle.v) + function-level correspondence for
     the choice of GPU groups (Model/GpuSharing.v). *)
-From KaiV Require Export Run.Cycle Model.GpuSharing.
+From KaiV Require Export Run.Cycle Model.GpuSharing Run.Decision.
 Open Scope Z_scope.
-
-Record dcase := mkD {
-  d_node : node;                       (* the real node before the decision *)
-  d_task : task;
-  d_pipeline_only : bool;
-  d_cands : list (option positive);    (* candidate list handed to the real function, in its order *)
-  d_fresh : list positive;             (* names standing for the fresh groups, in creation order *)
-  d_obs : option (list positive * bool);   (* observed: chosen groups, IsReleasing *)
-}.
 
 (** [PFault]: a cycle with injected Bind / Evict API failures; only the calls that succeeded are
     listed, no correspondence is claimed (see Run/C01.v), the device monitor must hold. *)
 Inductive c02case := PCycle (k : ccase) | PDecision (d : dcase) | PFault (k : ccase).
-
-Definition decision_eqb (a b : option (list positive * bool)) : bool :=
-  match a, b with
-  | None, None => true
-  | Some (g1, r1), Some (g2, r2) => list_eqb Pos.eqb g1 g2 && Bool.eqb r1 r2
-  | _, _ => false
-  end.
-
-Definition decision_agrees (d : dcase) : bool :=
-  decision_eqb (prefer (d_node d) (d_task d) (d_pipeline_only d) (d_cands d) (d_fresh d)) (d_obs d).
-
-(** A decision that is not marked as releasing leads to Statement.Allocate and then to a Bind:
-    it must be safe for the devices. Flag 2: the unsafe decision is one where fresh devices were
-    taken although fewer are idle (known finding C02-multidevice-fresh-groups). *)
-Definition decision_monitor (d : dcase) : bool :=
-  match d_obs d with
-  | Some (gs, false) =>
-      nodup_posb gs && (Z.of_nat (List.length gs) =? t_ndev (d_task d))
-      && decision_safe (d_node d) (d_task d) gs
-  | Some (gs, true) => nodup_posb gs && (Z.of_nat (List.length gs) =? t_ndev (d_task d))
-  | None => true
-  end.
 
 Definition model_agrees (c : c02case) : bool :=
   match c with PCycle k => cycle_agrees k | PDecision d => decision_agrees d | PFault _ => true end.
